@@ -58,10 +58,10 @@ def do_import():
     os.makedirs(SEEDED, exist_ok=True)
     worktree()
     try:
-        srcs = sorted(x for x in glob.glob("/tmp/seed/out/C*/m[0-9]") + glob.glob("/tmp/seed2/out/C*/m[0-9]") + glob.glob("/tmp/seed3/out/C*/m[0-9]") if os.path.isdir(x))
+        srcs = sorted(x for x in glob.glob("/tmp/seed/out/C*/m[0-9]") + glob.glob("/tmp/seed2/out/C*/m[0-9]") + glob.glob("/tmp/seed3/out/C*/m[0-9]") + glob.glob("/tmp/seed4/out/C*/m[0-9]") if os.path.isdir(x))
         for src in srcs:
             prop, m = src.split("/")[-2:]
-            d = os.path.join(SEEDED, f"{prop}-{'r2' if '/seed2/' in src else 'r3' if '/seed3/' in src else ''}{m}")
+            d = os.path.join(SEEDED, f"{prop}-{'r2' if '/seed2/' in src else 'r3' if '/seed3/' in src else 'r4' if '/seed4/' in src else ''}{m}")
             if os.path.exists(os.path.join(d, "meta.json")) and "confirmation" in json.load(open(os.path.join(d, "meta.json"))) and "--force" not in sys.argv:
                 continue
             os.makedirs(d, exist_ok=True)
